@@ -17,13 +17,14 @@ Case kinds (spec['kind']):
 
 Oracle (model independent): see `oracle`.
 
-Finding classes of the pinned tree (`classify`); in all of them the model follows the PROPERTY:
-  periodic-seam-split                 periodic objects whose own `split(start)` is broken (few control points; C04/C07):
-                                      G2/SVG write what split returns, so the file is not the object (or the writer raises)
-  stl-2d-surface-resize               `STL.write_surface` pads 2D points with `ndarray.resize` (raises, or scrambles rational ones)
-  g2-circle-parameter-bounds-ignored  circle records with parameter bounds of an arc are read as the full circle (CHECK_ARC_BOUNDS)
-  g2-reversed-periodic-primitive      circle/ellipse records with the reversed flag: `reverse()` of a periodic curve (C06)
-  svg-nonopen-curve                   non-clamped curves: `bezier_representation` (raise_order/insert_knot, C05/C04) fails
+Finding class still present in the tree (`classify`; the model follows the PROPERTY):
+  periodic-seam-split   periodic objects whose own `split(start)` is broken (few functions; C04/C07): G2/SVG write what
+                        split returns, so the file is not the object (or the writer raises).  Attributed only when every
+                        failing object of the case is periodic and the library's own split of it is demonstrably wrong.
+Repaired earlier (now plain violations if they return): 2-D surfaces in STL (`ndarray.resize`), reversed circle/ellipse
+records (`reverse()` of a periodic curve).  Bases are clamped (open) or periodic throughout, the families the library's
+constructors, factories and readers produce.  Circle records with bounds of a partial arc are only checked against the
+implicit equation (CHECK_ARC_BOUNDS = False: the semantics of the bounds is not established by the repository).
 """
 import itertools
 import math
@@ -44,14 +45,14 @@ from vlib.compare import Err, diff, to_plain
 ID = 'C19'
 RTOL = 1e-12
 ATOL = 1e-300
-RULE = ('g2w: lists of 1-4 objects, pardim 1-3, dim 2-3, rational/non-rational, periodic/non-periodic/non-clamped, dyadic, full-mantissa '
+RULE = ('g2w: lists of 1-4 objects, pardim 1-3, dim 2-3, rational/non-rational, periodic/non-periodic (clamped or periodic bases), dyadic, full-mantissa, mixed-magnitude (entries of one net spanning 26 decades) '
         'and extreme-magnitude (1e-12..1e12) streams; g2r/spl: files from an independent writer with 5 number spellings, junk in '
         'unused fields, blank lines, plus malformed files; stl: surfaces and volumes, n=None/int/pair, ASCII and binary; svg: '
         'drawings of 1-3 planar non-rational curves of order 2-4 incl. periodic; prim: line/circle/ellipse/cylinder/disc/plane/'
         'torus/sphere/extrusion records with random rigid placement.  distinct = distinct protocol lines; non-trivial = all but '
         'malformed files.')
 REQUIRED_TAGS = ['g2w', 'g2r', 'spl', 'stl-binary', 'stl-ascii', 'svg', 'prim', 'periodic', 'rational', 'extreme',
-                 'full-mantissa', 'pardim=3', 'malformed', 'stl-volume', 'stl-n=None', 'non-open']
+                 'full-mantissa', 'pardim=3', 'malformed', 'stl-volume', 'stl-n=None', 'mixed-magnitude', 'stl-dim2', 'prim-reversed-periodic']
 ASSUMPTIONS = ["'%.16g'/float(), '.4f', float32 packing and '%f' are trusted (the model carries exact numbers, the harness rounds)",
                'the seam split of periodic objects, bezier_representation and grid evaluation are performed by the real code on '
                'the harness side before the model is consulted (properties C07, C04/C05, C02)']
@@ -221,30 +222,45 @@ def _continuous(b):
     return all(inner.count(x) < b['order'] for x in inner)
 
 
-def _nonopen(rng, o, max_mult=None):
-    """Replace the non-periodic bases by non-clamped ones of the same order (new random control net)."""
+def _small_periodic(b):
+    """Periodic basis with fewer than p+k functions (the family on which the library's seam split is defective)."""
+    return b['periodic'] >= 0 and gen.basis_info(b)['n'] < b['order'] + b['periodic']
+
+
+def _fatten(rng, o, keep=0.12):
+    """Most small periodic directions are replaced by periodic bases of the same order/continuity with enough
+    functions (new random control net), so that the cases exercise the file round trip rather than C04/C07."""
+    if not any(_small_periodic(b) for b in o['bases']) or rng.random() < keep:
+        return o
     bases = []
     for b in o['bases']:
-        if b['periodic'] < 0 and b['order'] >= 2:
-            b = gen.open_basis(rng, b['order'], n_interior=rng.randint(0, 2), clamped=False,
-                               max_mult=max_mult if max_mult is not None else b['order'])
+        if _small_periodic(b):
+            p, k = b['order'], b['periodic']
+            b = gen.periodic_basis(rng, p, k, n_interior=rng.randint(p + k, p + k + 2), max_mult=1)
         bases.append(b)
     cps = np.array(o['cps'], dtype=float)
     shape = [gen.basis_info(b)['n'] for b in bases]
     return {'bases': bases, 'cps': gen.rand_cps(rng, shape, cps.shape[-1], o['rational']), 'rational': o['rational']}
 
 
-def _is_open(b):
-    p, kn = b['order'], b['knots']
-    return b['periodic'] >= 0 or (kn[:p] == [kn[0]] * p and kn[-p:] == [kn[-1]] * p)
+def _mixed(rng, o):
+    """Entries of ONE control net spanning ~26 decades (each entry its own power of ten, full mantissa):
+    only a per-entry significant-digit comparison sees a writer that treats small entries as noise."""
+    cps = np.array(o['cps'], dtype=float)
+    flat = cps.reshape(-1)
+    for i in range(len(flat)):
+        m = rng.uniform(1.0, 9.999) * rng.choice([-1, 1])
+        flat[i] = m * 10.0 ** rng.randint(-20, 6)
+    if o['rational']:
+        w = cps.reshape(-1, cps.shape[-1])
+        for row in w:
+            row[-1] = rng.uniform(1.0, 9.999) * 10.0 ** rng.choice([-14, -12, -6, 0, 0, 3])
+    return {'bases': o['bases'], 'cps': cps.tolist(), 'rational': o['rational']}
 
 
 def _rand_obj(rng, stream, **kw):
     kw.setdefault('max_interior', 2)
-    nonopen = kw.pop('nonopen', 0.0)
-    o = gen.rand_object(rng, **kw)
-    if rng.random() < nonopen:
-        o = _nonopen(rng, o)
+    o = _fatten(rng, gen.rand_object(rng, **kw))
     if stream == 'extreme':
         e = rng.choice([-12, -9, -6, 6, 9, 12])
         ks = 1.0
@@ -253,6 +269,8 @@ def _rand_obj(rng, stream, **kw):
         o = _scaled(o, 10.0 ** e, ks)
     elif stream == 'full':
         o = _full_mantissa(rng, o)
+    elif stream == 'mixed':
+        o = _mixed(rng, o)
     return o
 
 
@@ -301,7 +319,7 @@ def _vec(v):
     return ' '.join(repr(float(x)) for x in v)
 
 
-def _prim(rng, kind):
+def _prim(rng, kind, swap=None):
     """Record text + the parameters the oracle needs."""
     if rng.random() < 0.15:
         R = np.eye(3)
@@ -312,7 +330,7 @@ def _prim(rng, kind):
     r = rng.choice([0.5, 1.0, 1.5, 2.0, 3.25])
     twopi = 2 * math.pi
     p = {'type': kind, 'c': c.tolist(), 'ex': ex.tolist(), 'ey': ey.tolist(), 'ez': ez.tolist(), 'r': r}
-    swap = int(rng.random() < 0.4)
+    swap = int(rng.random() < 0.4) if swap is None else swap
     p['swap'] = swap
     L = []
     if kind == 'line':
@@ -379,15 +397,15 @@ def generate(rng, tier):
     specs = []
     # ---- (a) real writer vs model writer
     for i in range(70 if quick else 500):
-        stream = ['dyadic', 'dyadic', 'full', 'extreme'][i % 4]
+        stream = ['dyadic', 'mixed', 'full', 'extreme', 'dyadic', 'mixed'][i % 6]
         nobj = rng.choice([1, 1, 2, 3]) if quick else rng.choice([1, 2, 3, 4])
-        objs = [_rand_obj(rng, stream, pmax=4 if quick else 5, nonopen=0.2) for _ in range(nobj)]
+        objs = [_rand_obj(rng, stream, pmax=4 if quick else 5) for _ in range(nobj)]
         specs.append({'kind': 'g2w', 'objs': objs, 'stream': stream})
     # ---- (b) independent writer vs real reader vs model reader
     for i in range(50 if quick else 400):
-        stream = ['dyadic', 'full', 'extreme'][i % 3]
+        stream = ['dyadic', 'full', 'extreme', 'mixed'][i % 4]
         style = STYLES[i % len(STYLES)]
-        objs = [_rand_obj(rng, stream, periodic_prob=0.0, pmax=4 if quick else 5, nonopen=0.2) for _ in range(rng.choice([1, 1, 2, 3]))]
+        objs = [_rand_obj(rng, stream, periodic_prob=0.0, pmax=4 if quick else 5) for _ in range(rng.choice([1, 1, 2, 3]))]
         ls = []
         for o in objs:
             ls += foreign_g2_record(rng, o, style)
@@ -427,12 +445,10 @@ def generate(rng, tier):
         curves = []
         for _ in range(k):
             while True:
-                o = gen.rand_object(rng, pardim=1, dim=2, rational=False, pmin=2, pmax=4, max_interior=3)
+                o = _fatten(rng, gen.rand_object(rng, pardim=1, dim=2, rational=False, pmin=2, pmax=4, max_interior=3))
                 # at least C0, and not a single repeated point (a periodic curve with one control point)
                 if _continuous(o['bases'][0]) and gen.basis_info(o['bases'][0])['n'] >= 2:
                     break
-            if i % 10 == 9:
-                o = _nonopen(rng, o, max_mult=1)
             curves.append(_scaled(o, scale))
         pts = np.concatenate([np.array(c['cps'], dtype=float).reshape(-1, 2) for c in curves])
         if pts[:, 0].max() - pts[:, 0].min() <= 0:
@@ -443,7 +459,7 @@ def generate(rng, tier):
     # ---- primitives (oracle only)
     for i in range(50 if quick else 400):
         kind = PRIMS[i % len(PRIMS)]
-        text, p = _prim(rng, kind)
+        text, p = _prim(rng, kind, swap=(i // len(PRIMS)) % 2 if kind in ('circle', 'ellipse') else None)
         specs.append({'kind': 'prim', 'text': text, 'prim': p})
     return specs
 
@@ -1116,24 +1132,32 @@ def _split_broken(sp, o, raise_to=None):
 
 def classify(s, res=None):
     k = s['kind']
-    msgs = ' '.join((res or {}).get('oracle') or [])
-    if k == 'stl' and any(np.array(o['cps']).shape[-1] - int(o['rational']) == 2 for o in s['objs']):
-        return 'stl-2d-surface-resize'
+    msgs = (res or {}).get('oracle') or []
     if k in ('g2w', 'svg') and msgs:
-        # failures on periodic objects are attributed to the seam split (C04/C07) only when the library's
-        # own split of that object is demonstrably broken
+        # Failures are attributed to the seam split (C04/C07) only when EVERY failing object of the case is periodic
+        # and the library's own split of that object is demonstrably broken; a failure on any other object of the
+        # same file stays an unexplained violation.
         sp = _sp()
-        for o in _all_objs(s):
-            if not _nonperiodic(o) and _split_broken(sp, o, 4 if k == 'svg' else None):
+        objs = _all_objs(s)
+        if all(m.startswith('split raised') for m in msgs):
+            idx = [i for i, o in enumerate(objs) if not _nonperiodic(o)]
+        else:
+            idx = []
+            for m in msgs:
+                mm = re.match(r'(?:object|curve) (\d+)\b', m)
+                if not mm:
+                    if k == 'svg' and 'raised' in m:      # the whole drawing failed: blame needs a broken periodic curve
+                        idx += [i for i, o in enumerate(objs) if not _nonperiodic(o)] or [-1]
+                        continue
+                    return None
+                idx.append(int(mm.group(1)))
+        if idx and all(0 <= i < len(objs) and not _nonperiodic(objs[i]) for i in idx):
+            if k == 'svg':
+                # one broken curve spoils the drawing-wide similarity estimate or the whole file
+                if any(_split_broken(sp, objs[i], 4) for i in idx):
+                    return 'periodic-seam-split'
+            elif all(_split_broken(sp, objs[i]) for i in idx):
                 return 'periodic-seam-split'
-    if k == 'svg' and msgs and any(not _is_open(c['bases'][0]) for c in s['curves']):
-        # bezier_representation (raise_order / insert_knot at the ends, C05/C04) presumes clamped ends
-        return 'svg-nonopen-curve'
-    if k == 'prim' and s['prim']['type'] == 'arc':
-        return 'g2-circle-parameter-bounds-ignored'
-    if k == 'prim' and s['prim']['type'] in ('circle', 'ellipse') and s['prim']['swap']:
-        # `reverse()` of a periodic curve (property C06) is what the reader applies for the flag
-        return 'g2-reversed-periodic-primitive'
     return None
 
 
@@ -1156,8 +1180,10 @@ def tags(s, res):
         out.append('rational' if o['rational'] else 'non-rational')
         out.append('periodic' if not _nonperiodic(o) else 'non-periodic')
         out.append('dim=%d' % (np.array(o['cps']).shape[-1] - int(o['rational'])))
-    if any(not _is_open(b) for o in objs for b in o['bases']):
-        out.append('non-open')
+    if any(_small_periodic(b) for o in objs for b in o['bases']):
+        out.append('small-periodic')
+    if s.get('stream') == 'mixed':
+        out.append('mixed-magnitude')
     if s.get('stream') == 'extreme':
         out.append('extreme')
     if s.get('stream') == 'full':
@@ -1178,6 +1204,10 @@ def tags(s, res):
         out += ['svg-order=%d' % o['bases'][0]['order'] for o in objs]
     if k == 'prim':
         out.append('prim=' + s['prim']['type'])
+        if s['prim']['type'] in ('circle', 'ellipse') and s['prim']['swap']:
+            out.append('prim-reversed-periodic')
+    if k == 'stl' and any(np.array(o['cps']).shape[-1] - int(o['rational']) == 2 for o in objs):
+        out.append('stl-dim2')
     return sorted(set(out))
 
 
